@@ -4,6 +4,12 @@ NOTES = ("Exit codes of ./check: 0 held, 1 violation (VIOLATION line), 2 undecid
          "see KNOWN_FINDINGS.json (fixed: entries name the fix: commits in /repo).")
 
 CHECKS = {
+    "C01": {
+        "text": "Proof (Verus, unbounded) of the 'no withdrawal is lost' clause at the pending-update queue: PendingTx::{reach, unreach, keep_displaced_unreach, is_empty, new, schedule_eor} are verified in place. reach() queues exactly its announcement (whole-map equality frames every other key) and never drops the queued withdrawal of another prefix, even when the destination id under which it is queued has been reused (F-C01-1, found by this obligation and fixed); unreach() cancels only the announcement of the same key, queues its withdrawal and drops no other; neither invents withdrawals. Holds for every sequence of calls by induction over the per-call contracts.",
+        "design_ref": "DESIGN.md §4 C01",
+        "note": "Scope is the queue only. NOT covered: drain_messages (hashbrown drain/Entry outside Verus; CBMC infeasible), ExportMap and process_nlri_change (the diff against what was sent, filters, add-path window), the equality with a brand-new session, and every scheduling aspect (A-C01-1). Trusted: prelude (opaque Nlri/Attribute/Nexthop, structural PartialEq on Nlri, hash key model for (u32,u32)), A-C01-2.",
+        "technique": "deductive verification with Verus: whole-map postconditions on the real PendingTx methods",
+    },
     "C07": {
         "text": "Proof (Verus, unbounded): every function of daemon/src/fsm.rs (Connection::*, PeerFsm::*) is verified in place inside the real rustybgpd crate against contracts taken from the property: per-transition postconditions of Connection::process (how Established/OpenConfirm/OpenSent can be entered, FSM-error NOTIFICATION carrying the state, teardown inputs always yield SessionDown) and an inductive invariant of PeerFsm::process (at most one connection in OpenConfirm-or-Established; Established survives a newcomer; loser chosen by BGP identifier and sent Cease/collision; SessionDown frees the slot and reports Idle). Holds for all inputs and, by induction over the step contract, all input histories.",
         "design_ref": "DESIGN.md §4 C07, §3.1",
@@ -32,7 +38,7 @@ CHECKS = {
 
 _NOT_BUILT = "claimed in DESIGN.md but its check is not built yet in this round; listed here until the check is quiet on the unchanged tree"
 NOT_APPLICABLE = {
-    "C01": _NOT_BUILT, "C02": _NOT_BUILT, "C04": _NOT_BUILT, "C05": _NOT_BUILT,
+    "C02": _NOT_BUILT, "C04": _NOT_BUILT, "C05": _NOT_BUILT,
     "C06": _NOT_BUILT, "C09": _NOT_BUILT, "C12": _NOT_BUILT, "C14": _NOT_BUILT,
     "C16": _NOT_BUILT, "C19": _NOT_BUILT,
     "C11": "RestartingDeferral::{new,process} use ~15 iterator adapters and the HashMap Entry API that Verus rejects (a function is verified whole or not at all) and CBMC does not terminate on hashbrown (20-min timeout at the smallest non-vacuous unwinding); no contract within reach decides it (DESIGN.md §5)",
